@@ -138,6 +138,13 @@ func (tree *Rtree) chooseNode(n *node, e entry, level int) *node {
 		}
 	}
 
+	if chosen.child == nil {
+		// No entry compared as the best one: the enlargements are not
+		// numbers (boxes without any point, or areas that overflow). Any
+		// entry will do.
+		chosen = n.entries[0]
+	}
+
 	return tree.chooseNode(chosen.child, e, level)
 }
 
